@@ -250,6 +250,20 @@ func cmdCheck(args []string) int {
 		obls = append(obls, os2...)
 	}
 	obls = append(obls, prog.checkImmutable()...)
+	for _, a := range prog.immAssumed {
+		assumptions[a] = true
+	}
+	{
+		po, perrs := prog.checkPkgInvariants()
+		for _, pe := range perrs {
+			fmt.Fprintln(os.Stderr, "ERROR:", pe)
+			engineErr++
+		}
+		for _, o := range po {
+			o.Props = []string{*prop}
+		}
+		obls = append(obls, po...)
+	}
 	if *only != "" {
 		var f []*Obligation
 		for _, o := range obls {
@@ -304,6 +318,33 @@ func cmdCheck(args []string) int {
 			known[f.obligation] = f
 		}
 	}
+	// replays of failed obligations, in parallel
+	replayPath := map[*Obligation]string{}
+	{
+		var rwg sync.WaitGroup
+		var rmu sync.Mutex
+		rsem := make(chan struct{}, 8)
+		for _, o := range obls {
+			if o.Status == "proved" {
+				continue
+			}
+			if _, isKnown := known[o.Name]; isKnown {
+				continue
+			}
+			o := o
+			rwg.Add(1)
+			rsem <- struct{}{}
+			go func() {
+				defer rwg.Done()
+				defer func() { <-rsem }()
+				p := writeReplay(*prop, o, prog)
+				rmu.Lock()
+				replayPath[o] = p
+				rmu.Unlock()
+			}()
+		}
+		rwg.Wait()
+	}
 	discharged, violations, vacuous := 0, 0, 0
 	byBackend := map[string]int{}
 	solverSecs := 0.0
@@ -333,7 +374,7 @@ func cmdCheck(args []string) int {
 			continue
 		}
 		violations++
-		path := writeReplay(*prop, o, prog)
+		path := replayPath[o]
 		suffix := ""
 		if !o.replayed {
 			suffix = " no-failing-input-found"
